@@ -483,7 +483,8 @@ func buildC13(seed int64, shape string) (kind string, snap *repoSnap, extra []*M
 	}
 	if shape == "fetch" {
 		kind = "fetch"
-		extra, op, cleanup, err = buildC13Fetch(r, db, rs, t0, mkTable)
+		// the remote's clock has its own stream: the other draws of the case stay what they were
+		extra, op, cleanup, err = buildC13Fetch(r, rand.New(rand.NewSource(seed^0x636c6f636b)), db, rs, t0, mkTable)
 		if err != nil {
 			return
 		}
@@ -610,7 +611,14 @@ func buildC13(seed int64, shape string) (kind string, snap *repoSnap, extra []*M
 // remote-tracking ref of an earlier fetch; the remote is 1..3 commits ahead on main, may have a
 // second branch forked from any commit of main, and 0..2 tags on any of its commits (tags are not
 // covered by the default refspec: fetch follows them when their commit is present locally).
-func buildC13Fetch(r *rand.Rand, db *MemStore, rs ref.Store, t0 *TableSpec, mkTable func(int) *TableSpec) (extra []*MemStore, op c13Op, cleanup func(), err error) {
+// The remote's commits carry the time of the machine they were made on: 1 case in 2 the clocks agree
+// with the history (every commit a second later than the one before); otherwise every commit is an
+// hour OLDER than the one made before it, or the times jump either way, or all are equal, so that a
+// commit may be older than its parent (nothing ties a commit's time to its ancestors').
+// c13Clock names the remote's clock of the fetch case built last (a tag of the emitted case).
+var c13Clock string
+
+func buildC13Fetch(r, clk *rand.Rand, db *MemStore, rs ref.Store, t0 *TableSpec, mkTable func(int) *TableSpec) (extra []*MemStore, op c13Op, cleanup func(), err error) {
 	cleanup = func() {}
 	remote := NewMemStore()
 	for _, k := range db.Keys() {
@@ -622,7 +630,20 @@ func buildC13Fetch(r *rand.Rand, db *MemStore, rs ref.Store, t0 *TableSpec, mkTa
 	rrs.Set("heads/main", c0)
 	tick := 0
 	saved := commitClock
-	commitClock = func() time.Time { tick++; return fixedTime.Add(time.Duration(tick) * time.Second) }
+	clockMode := clk.Intn(6)
+	c13Clock = []string{"forward", "forward", "forward", "backwards", "jumps", "equal"}[clockMode]
+	commitClock = func() time.Time {
+		tick++
+		switch clockMode {
+		case 3: // a clock running backwards
+			return fixedTime.Add(-time.Duration(tick) * time.Hour)
+		case 4: // clocks that disagree either way
+			return fixedTime.Add(time.Duration(clk.Intn(7)-3) * time.Hour)
+		case 5: // one-second resolution: all equal
+			return fixedTime
+		}
+		return fixedTime.Add(time.Duration(tick) * time.Second)
+	}
 	defer func() { commitClock = saved }()
 	commits := [][]byte{c0}
 	cur := t0
@@ -752,6 +773,9 @@ func runC13(ctx *Ctx) {
 	tags := []string{"kind=" + kind}
 	if shape != "" {
 		tags = append(tags, "shape="+shape)
+	}
+	if kind == "fetch" {
+		tags = append(tags, "clock="+c13Clock)
 	}
 	ctx.Emit("crash", in, res, nt, tags...)
 }
